@@ -66,6 +66,7 @@ type Contract struct {
 	Defines   []*Clause
 	File      string
 	IsIface   bool
+	lineNo    int
 	Replay    []string
 }
 
@@ -121,6 +122,36 @@ func (e *Engine) loadContractFile(path string, pkg *types.Package) error {
 	}
 	e.contractFiles = append(e.contractFiles, path)
 	var cur *Contract
+	var pendingContract *Contract
+	register := func() error {
+		c := pendingContract
+		pendingContract = nil
+		if c == nil {
+			return nil
+		}
+		if old := e.contracts[c.Key]; old != nil {
+			// a second contract for the same function is allowed only as a trusted,
+			// property-scoped view (used at call sites inside functions of those properties)
+			switch {
+			case c.Trusted && len(c.Props) > 0 && !old.Trusted:
+				e.addView(c)
+				return nil
+			case old.Trusted && len(old.Props) > 0 && !c.Trusted:
+				e.addView(old)
+				e.contracts[c.Key] = c
+				for i, k := range e.contractOrder {
+					if k == c.Key {
+						e.contractOrder[i] = c.Key
+					}
+				}
+				return nil
+			}
+			return fmt.Errorf("%s:%d: duplicate contract for %s", path, c.lineNo, c.Key)
+		}
+		e.contracts[c.Key] = c
+		e.contractOrder = append(e.contractOrder, c.Key)
+		return nil
+	}
 	var curMon *Monitor
 	var lastClause *Clause
 	var lastMod bool
@@ -227,6 +258,9 @@ func (e *Engine) loadContractFile(path string, pkg *types.Package) error {
 			pendingPred, cur, lastClause = nil, nil, nil
 			continue
 		case kw == "func" || kw == "closure" || kw == "iface" || kw == "functype" || kw == "funcfield":
+			if err := register(); err != nil {
+				return err
+			}
 			pendingPred = nil
 			c := &Contract{Header: text, Pkg: pkg, LoopInv: map[int][]*Clause{}, LoopStep: map[int][]*Clause{}, File: path}
 			switch kw {
@@ -292,11 +326,8 @@ func (e *Engine) loadContractFile(path string, pkg *types.Package) error {
 					c.Key = path + "." + tn[j+1:] + "." + fd.Name.Name
 				}
 			}
-			if old := e.contracts[c.Key]; old != nil {
-				return fail(fmt.Errorf("duplicate contract for %s", c.Key))
-			}
-			e.contracts[c.Key] = c
-			e.contractOrder = append(e.contractOrder, c.Key)
+			pendingContract = c
+			c.lineNo = ln + 1
 			cur, lastClause, lastMod = c, nil, false
 			curMon = nil
 			continue
@@ -428,13 +459,43 @@ func (e *Engine) loadContractFile(path string, pkg *types.Package) error {
 			lastClause = nil
 		}
 	}
-	return nil
+	return register()
+}
+
+func (e *Engine) addView(c *Contract) {
+	if e.views == nil {
+		e.views = map[string]map[string]*Contract{}
+	}
+	if e.views[c.Key] == nil {
+		e.views[c.Key] = map[string]*Contract{}
+	}
+	for _, p := range c.Props {
+		e.views[c.Key][p] = c
+	}
+	e.viewList = append(e.viewList, c)
+}
+
+// contractFor picks the contract a caller sees: a trusted view scoped to one of
+// the caller's properties if there is one, else the primary contract.
+func (e *Engine) contractFor(key string, callerProps []string) *Contract {
+	if vs := e.views[key]; vs != nil {
+		for _, p := range callerProps {
+			if v := vs[p]; v != nil {
+				return v
+			}
+		}
+	}
+	return e.contracts[key]
 }
 
 // finishContracts parses all clause texts (after continuation lines were joined).
 func (e *Engine) finishContracts() error {
+	var allCons []*Contract
 	for _, k := range e.contractOrder {
-		c := e.contracts[k]
+		allCons = append(allCons, e.contracts[k])
+	}
+	allCons = append(allCons, e.viewList...)
+	for _, c := range allCons {
 		all := append(append(append([]*Clause{}, c.Requires...), c.Ensures...), c.Defines...)
 		for _, cs := range c.LoopInv {
 			all = append(all, cs...)
